@@ -398,7 +398,7 @@ func spawn(f func()) {
 
 // ---------- Go helpers (eager evaluation of function value and arguments, as the go statement does) ----------
 
-func Go0(f func())                                   { spawn(f) }
+func Go0(f func())                                    { spawn(f) }
 func Go1[A any](f func(A), a A)                       { spawn(func() { f(a) }) }
 func Go2[A, B any](f func(A, B), a A, b B)            { spawn(func() { f(a, b) }) }
 func Go3[A, B, C any](f func(A, B, C), a A, b B, c C) { spawn(func() { f(a, b, c) }) }
